@@ -267,6 +267,10 @@ fn build_timespan(pair: Pair<Rule>) -> Result<ts::TimeSpan> {
         },
     };
 
+    if repeats.is_some_and(|step| step.is_zero()) {
+        return Err(Error::Unsupported("repetition step of zero"));
+    }
+
     assert!(pairs.next().is_none());
     Ok(ts::TimeSpan { range: start..end, repeats, open_end })
 }
